@@ -14,13 +14,6 @@ import (
 	"verif.local/vlib"
 )
 
-func vPart(def string) string {
-	if p := os.Getenv("VERIF_PART"); p != "" {
-		return p
-	}
-	return def
-}
-
 // regime draws one of the two periodic regimes with known tick instants.
 func vRegime(rr *rand.Rand) (min, max time.Duration) {
 	if rr.Intn(2) == 0 {
